@@ -20,6 +20,10 @@ class Gen:
 
     def __init__(self, rng, nclients, session_mode, caching, pool_size, allow_timeouts):
         self.r, self.n, self.sm, self.caching, self.ps = rng, nclients, session_mode, caching, pool_size
+        # "idle": idle_client_in_transaction_timeout is configured (it fires for EVERY client that sits in the
+        # transaction loop longer than the timeout, so such scenarios contain no other long waits);
+        # "stmt": statement timeouts / pool-exhaustion waits are allowed, no idle timeout configured
+        self.flavour = (rng.choice(["idle", "stmt"]) if allow_timeouts else "none")
         self.allow_timeouts = allow_timeouts
         self.phase = {}      # c -> none | outer | inner | gone
         self.txn = {}        # c -> I/T/E (backend status while inner)
@@ -93,7 +97,7 @@ class Gen:
             return
         if ph == "outer" and self.holders >= self.ps:
             # pool exhausted: a request now yields a pool error after connect_timeout (sometimes wanted)
-            if r.random() < 0.15:
+            if r.random() < 0.15 and self.flavour != "idle":
                 self.ops.append(("Query", c, ["Select"]))
             elif r.random() < 0.1:
                 self.ops.append(("Terminate", c))
@@ -143,11 +147,11 @@ class Gen:
         elif k < 0.90 and self.caching:
             self.ops.append(("BadMsg", c))
             self.leave_inner(c, "gone")
-        elif k < 0.93 and self.allow_timeouts and ph == "inner":
+        elif k < 0.93 and self.flavour == "idle" and ph == "inner" and self.holders == 1:
             self.ops.append(("IdleTimeout", c))
             self.uses_idle_timeout = True
             self.leave_inner(c, "outer")
-        elif k < 0.96 and self.allow_timeouts:
+        elif k < 0.96 and self.flavour == "stmt":
             ss = self.rand_stmts(c)
             self.ops.append(("StmtTimeout", c, ss))
             self.uses_stmt_timeout = True
@@ -230,11 +234,11 @@ SQLTXT = {"Begin": "BEGIN", "Commit": "COMMIT", "Rollback": "ROLLBACK", "Select"
           "Fail": "SELECT 1 /*mock:error*/", "CopyIn": "COPY t FROM STDIN"}
 
 
-def scenario(ops, ps, sm, caching):
+def scenario(ops, ps, sm, caching, inuse=None):
     uses_idle = any(o[0] == "IdleTimeout" for o in ops)
     general = {"connect_timeout": 300}
     if uses_idle:
-        general["idle_client_in_transaction_timeout"] = 250
+        general["idle_client_in_transaction_timeout"] = 700
     toml = W.make_toml(general=general, pools={"db": {
         "opts": {"pool_mode": "session" if sm else "transaction", "prepared_statements_cache_size": 50 if caching else 0},
         "users": [{"pool_size": ps, "statement_timeout": 300}],
@@ -289,8 +293,8 @@ def scenario(ops, ps, sm, caching):
             steps.append({"op": "recv", "c": cn, "until": "", "count": 0, "timeout_ms": 400, "label": "panic"})
             steps.append({"op": "sleep", "ms": 40})
         elif k == "IdleTimeout":
-            steps.append({"op": "sleep", "ms": 330})
-            steps.append({"op": "recv", "c": cn, "until": "Z", "timeout_ms": 600, "label": "idle"})
+            steps.append({"op": "sleep", "ms": 800})
+            steps.append({"op": "recv", "c": cn, "until": "Z", "timeout_ms": 900, "label": "idle"})
         elif k == "StmtTimeout":
             steps.append({"op": "send", "c": cn, "msgs": [{"t": "Q", "sql": sqls(c, o[2], "/*mock:hang*/ ")}]})
             steps.append({"op": "recv", "c": cn, "until": "", "count": 0, "timeout_ms": 900, "label": "stmt_timeout"})
@@ -299,6 +303,8 @@ def scenario(ops, ps, sm, caching):
             steps.append({"op": "send", "c": cn, "msgs": [{"t": "Q", "sql": sqls(c, o[2], "/*mock:close*/ ")}]})
             steps.append({"op": "recv", "c": cn, "until": "", "count": 0, "timeout_ms": 900, "label": "server_dies"})
             steps.append({"op": "sleep", "ms": 40})
+        if inuse is not None and len(opmeta) < len(inuse):
+            steps.append({"op": "wait_inuse", "n": inuse[len(opmeta)], "timeout_ms": 1500})
         opmeta.append(o)
     steps.append({"op": "sleep", "ms": 60})
     steps.append({"op": "snapshot", "label": "end"})
@@ -375,10 +381,14 @@ def model_conn_logs(events):
 def compare(case, model, res):
     """returns list of disagreement strings (empty = agree)."""
     ops, ps, sm, caching = case
-    events, mconns, mclients, mon = model
+    events, mconns, mclients, mon = model[:4]
     dis = []
     if "harness_error" in res or "start_error" in res:
         return ["harness: %s" % (res.get("harness_error") or res.get("start_error"))]
+    for e in res.get("events", []):
+        if e.get("ev") == "wait_inuse_timeout":
+            dis.append("server connections in use: pooler reports %s, model %s" % (e["got"], e["want"]))
+            break
     il = impl_conn_logs(res)
     # drop connections that never saw a statement and were never closed by a fault (validate() opens one early)
     il_used = [(cid, [x for x in items if x["k"] not in ("health", "sync")]) for cid, items in il]
@@ -428,10 +438,11 @@ def monitors(res, caching):
                     dirty.append("txn=" + st["txn"])
                 if st["copy"]:
                     dirty.append("copy")
-                g = [y for y in st["gucs"] if not y.startswith("application_name=")]
+                # the property speaks of state created OUTSIDE a transaction block (gucs_out / role_out)
+                g = [y for y in st.get("gucs_out", []) if y != "application_name"]
                 if g:
-                    dirty.append("gucs=%s" % g)
-                if st["role"]:
+                    dirty.append("gucs set outside a transaction=%s" % g)
+                if st.get("role_out"):
                     dirty.append("role=%s" % st["role"])
                 if st["sql_prepared"]:
                     dirty.append("sql_prepared=%s" % st["sql_prepared"])
@@ -463,3 +474,45 @@ def monitors(res, caching):
             v01.append({"client": c, "transaction_spread_over_connections": [last_conn[c], cid], "sql": x["sql"]})
         last_conn[c] = cid
     return v01, v02
+
+
+# ----------------------------------------------------------------------------- soak (thorough tier)
+def soak_scenario(rng, nclients, pool_size, txns, session_mode=False):
+    """nclients free-running scripted clients (one tokio task each) on the multi-thread runtime:
+    random transactions, aborts at random points; the monitors are evaluated on the backend log."""
+    toml = W.make_toml(general={"connect_timeout": 3000}, pools={"db": {
+        "opts": {"pool_mode": "session" if session_mode else "transaction"},
+        "users": [{"pool_size": pool_size}], "shards": [{"servers": [["b0", "primary"]]}]}})
+    steps = []
+    for c in range(1, nclients + 1):
+        cn = "c%d" % c
+        sub = [{"op": "connect", "c": cn, "params": {"user": "u", "database": "db"}, "password": "pw"}]
+        alive = True
+        for t in range(txns):
+            if not alive:
+                break
+            k = rng.random()
+            body = []
+            if k < 0.55:
+                body = ["BEGIN", "SELECT 1", rng.choice(["SELECT 2", "SET work_mem TO 3", "SELECT 1 /*mock:error*/"]), rng.choice(["COMMIT", "ROLLBACK"])]
+            elif k < 0.8:
+                body = [rng.choice(["SELECT 1", "SET work_mem TO 5", "PREPARE q%d_%d AS SELECT 1" % (c, t), "BEGIN; SELECT 1; COMMIT"])]
+            else:
+                body = ["BEGIN", "SELECT 1"]
+            for sql in body:
+                sub.append({"op": "send", "c": cn, "msgs": [{"t": "Q", "sql": "%s /*c%d*/" % (sql, c)}]})
+                sub.append({"op": "recv", "c": cn, "until": "Z", "timeout_ms": 5000})
+            if k >= 0.8:
+                ab = rng.random()
+                if ab < 0.4:
+                    sub.append({"op": "close", "c": cn}); alive = False
+                elif ab < 0.7:
+                    sub.append({"op": "send", "c": cn, "msgs": [{"raw": "430000000553"}]}); alive = False
+                else:
+                    sub.append({"op": "send", "c": cn, "msgs": [{"t": "X"}]}); alive = False
+        steps.append({"op": "spawn", "task": cn, "steps": sub})
+    for c in range(1, nclients + 1):
+        steps.append({"op": "join", "task": "c%d" % c, "timeout_ms": 60000})
+    steps.append({"op": "sleep", "ms": 100})
+    steps.append({"op": "snapshot", "label": "end"})
+    return {"backends": [{"name": "b0"}], "toml": toml, "steps": steps, "workers": 4}
